@@ -27,12 +27,13 @@ import (
 )
 
 type Failure struct {
-	ID      string `json:"id"`
-	Kind    string `json:"kind"`              // none | input | failpoint
-	Profile string `json:"profile,omitempty"` // text replacing the base profile
-	Data    string `json:"data,omitempty"`    // text replacing the base data
-	HasData bool   `json:"has_data,omitempty"`
-	Site    string `json:"site,omitempty"`
+	ID       string `json:"id"`
+	Kind     string `json:"kind"`              // none | input | failpoint
+	Profile  string `json:"profile,omitempty"` // text replacing the base profile
+	Data     string `json:"data,omitempty"`    // text replacing the base data
+	HasData  bool   `json:"has_data,omitempty"`
+	Site     string `json:"site,omitempty"`
+	MayPanic bool   `json:"may_panic,omitempty"`
 }
 
 type Job struct {
